@@ -93,6 +93,32 @@ def handle (op : String) (j : Json) : Option (R Json) :=
       let th ← getFloats j "theta"; let aa ← getBool j "aa"
       pure (okJ [("data", floatsJ ((idxList sh[0]! sh[1]!).map fun (i, jj) =>
         hexagonAt half inner (fun n => Float.sin th[n]!) (fun n => Float.cos th[n]!) sh[0]! sh[1]! s[0]! s[1]! aa i jj))])
+  | "hex_to_rc" => some do
+      let cells ← getArr j "cells"
+      let radius ← getFloat j "radius"; let rot ← getBool j "rotate"
+      let s3 := Float.sqrt 3
+      let out ← cells.mapM fun c => do
+        let v ← c.getArr?
+        let q ← v[0]!.getInt?; let r ← v[1]!.getInt?; let t ← v[2]!.getInt?
+        let rc := hexToRC s3 (s3 / 2) 1.5 ((q, r, t) : HexCell) radius rot
+        pure (Json.arr #[floatToJson rc.1, floatToJson rc.2])
+      pure (okJ [("rc", Json.arr out)])
+  | "hex_segments" => some do
+      -- the whole of `hex_segments(..., antialias=False)`: array size, kept cells, one hexagon per cell, summed
+      let rings ← getNat j "rings"; let radius ← getFloat j "radius"; let gap ← getFloat j "gap"
+      let rot ← getBool j "rotate"; let pad ← getNat j "pad"
+      let drop ← (← getArr j "drop").mapM (·.getNat?)
+      let th ← getFloats j "theta"
+      let s3 := Float.sqrt 3
+      let inner := radius * s3 / 2
+      let size : Int := Int.ofNat ((Float.ceil ((Float.ofNat (rings * 2 + 1)) * inner * 2 + (Float.ofNat (rings * 2)) * gap
+        + Float.ofNat (pad * 2))).toUInt64.toNat)
+      let cells := segCells rings
+      let kept := keptSegments rings drop.toList
+      let shifts := kept.map fun s => if s = 0 then ((0 : Float), (0 : Float)) else hexToRC s3 (s3 / 2) 1.5 (cells.getD s (0, 0, 0)) (radius + gap / 2) rot
+      let px := (idxList size size).map fun (i, jj) =>
+        (shifts.filter fun sh => hexagonAt half inner (fun n => Float.sin th[n]!) (fun n => Float.cos th[n]!) size size sh.1 sh.2 false i jj == 1).length
+      pure (okJ [("size", intJ size), ("count", intJ kept.length), ("sum", ints (px.map Int.ofNat).toArray)])
   | _ => none
 
 end Ops.C20
